@@ -370,6 +370,72 @@ _TABLE_VARIANTS += [
       replace='\tks, _ := s.signer.KeySpec()\n' + _G_INLINE()),
 ]
 
+# ======== fourth pass ========
+# (10) CLASS "unexported helper cut at another boundary, the rest inlined into its callers": the three steps of the blob
+#      digest clause (obtain the key spec, hash of its signature algorithm, apply the table) and the invocation of the
+#      generator are distributed differently over SignBlob and its helpers: getDescriptor is replaced by a helper that only
+#      maps key spec -> digest algorithm (or signature algorithm -> digest algorithm, or signer -> digest algorithm, asking
+#      for the key spec itself) and both SignBlob functions invoke the generator themselves.
+_GD_FN = 'func getDescriptor(ks signature.KeySpec, genDesc notation.BlobDescriptorGenerator) (ocispec.Descriptor, error) {\n' + _S_BODY + '}\n'
+_P_CALL = '\tdesc, err := getDescriptor(ks, descGenFunc)\n'
+_G_KS = '\tks, err := s.signer.KeySpec()\n\tif err != nil {\n\t\treturn nil, nil, err\n\t}\n'
+_P_KS = '\tks, err := s.getKeySpec(ctx, mergedConfig)\n\tif err != nil {\n\t\treturn nil, nil, err\n\t}\n\n\t// get descriptor to sign\n'
+def _CALLER(gen, arg='ks', helper='digestAlgorithmFor', onerr='\tif err != nil {\n\t\treturn nil, nil, err\n\t}\n'):
+    return '\tdigestAlg, err := %s(%s)\n%s\tdesc, err := %s(digestAlg)\n' % (helper, arg, onerr, gen)
+def _CUT(helper=_KS_HELPER, g=None, p=None, more=()):
+    return [(SP, _MAP, _MAP + '\n' + helper), (S, _GD_FN, ''),
+            (S, _G_CALL, g or _CALLER('genDesc')), (SP, _P_CALL, p or _CALLER('descGenFunc'))] + list(more)
+_SIGALG_HELPER = ('func digestAlgorithmFor(sigAlg signature.Algorithm) (digest.Algorithm, error) {\n\tif alg, ok := algorithms[sigAlg.Hash()]; ok {\n\t\treturn alg, nil\n\t}\n'
+                  '\treturn "", fmt.Errorf("unknown hashing algo %v", sigAlg.Hash())\n}\n\n')
+_SIGNER_HELPER = _KS_HELPER + ('func signerDigestAlgorithm(sg signature.Signer) (digest.Algorithm, error) {\n\tks, err := sg.KeySpec()\n\tif err != nil {\n\t\treturn "", err\n\t}\n'
+                               '\treturn digestAlgorithmFor(ks)\n}\n\n')
+_G_TAIL = '\tif err != nil {\n\t\treturn nil, nil, err\n\t}\n\treturn s.Sign(ctx, desc, opts)\n'
+_G_NESTED = ('\tvar digestAlg digest.Algorithm\n\tif digestAlg, err = digestAlgorithmFor(ks); err == nil {\n\t\tvar desc ocispec.Descriptor\n\t\tif desc, err = genDesc(digestAlg); err == nil {\n'
+             '\t\t\treturn s.Sign(ctx, desc, opts)\n\t\t}\n\t}\n\treturn nil, nil, err\n')
+def _NESTED(body=None):
+    return [(SP, _MAP, _MAP + '\n' + _KS_HELPER), (S, _GD_FN, ''),
+            (S, _G_CALL + _G_TAIL, body or _G_NESTED), (SP, _P_CALL, _CALLER('descGenFunc')), _DIGEST_IMPORT]
+_DIGEST_IMPORT = (S, '\tocispec "github.com/opencontainers/image-spec/specs-go/v1"\n)\n', '\t"github.com/opencontainers/go-digest"\n\tocispec "github.com/opencontainers/image-spec/specs-go/v1"\n)\n')
+_CUT_VARIANTS = [
+ dict(name='benign-keyspec-helper-callers-invoke-generator', expect='silent', edits=_CUT()),
+ dict(name='benign-keyspec-helper-over-function-callers-invoke', expect='silent', edits=[
+      (SP, _MAP, _IFCHAIN + '\n' + _KS_HELPER.replace('algorithms[hash]', 'digestOf(hash)')), (S, _GD_FN, ''), (S, _G_CALL, _CALLER('genDesc')), (SP, _P_CALL, _CALLER('descGenFunc'))]),
+ dict(name='benign-sigalg-helper-callers-invoke-generator', expect='silent', edits=_CUT(helper=_SIGALG_HELPER,
+      g=_CALLER('genDesc', arg='ks.SignatureAlgorithm()'), p=_CALLER('descGenFunc', arg='ks.SignatureAlgorithm()'))),
+ dict(name='benign-signer-helper-obtains-keyspec-itself', expect='silent', edits=_CUT(helper=_SIGNER_HELPER,
+      more=[(S, _G_KS + _CALLER('genDesc'), _CALLER('genDesc', arg='s.signer', helper='signerDigestAlgorithm'))])),
+ dict(name='benign-keyspec-helper-callers-nested-guards', expect='silent', edits=_NESTED()),
+ # the same cuts with the property broken
+ dict(name='cut-nested-generator-error-ignored', expect='flagged(payload/blob-digest-algorithm)', edits=_NESTED(
+      _G_NESTED.replace('\t\tvar desc ocispec.Descriptor\n\t\tif desc, err = genDesc(digestAlg); err == nil {\n\t\t\treturn s.Sign(ctx, desc, opts)\n\t\t}\n', '\t\tdesc, _ := genDesc(digestAlg)\n\t\treturn s.Sign(ctx, desc, opts)\n'))),
+ dict(name='cut-nested-generator-error-swallowed-at-shared-return', expect='flagged(payload/blob-digest-algorithm)', edits=_NESTED(
+      _G_NESTED.replace('\t\tif desc, err = genDesc(digestAlg); err == nil {\n', '\t\tvar genErr error\n\t\tif desc, genErr = genDesc(digestAlg); genErr == nil {\n'))),
+ dict(name='cut-keyspec-error-ignored-by-caller', expect='flagged(payload/blob-digest-algorithm/lookup)', edits=_CUT(
+      more=[(S, _G_KS, '\tks, _ := s.signer.KeySpec()\n')])),
+ dict(name='cut-plugin-keyspec-error-ignored-by-caller', expect='flagged(payload/blob-digest-algorithm/lookup)', edits=_CUT(
+      p=_CALLER('descGenFunc', arg='ks2'), more=[(SP, _P_KS, _P_KS + '\tks2, _ := s.getKeySpec(ctx, opts.PluginConfig)\n')])),
+ dict(name='cut-caller-decodes-keyspec-from-constant', expect='flagged(payload/blob-digest-algorithm/lookup)', edits=_CUT(
+      p=_CALLER('descGenFunc', arg='ks2'), more=[(SP, _P_KS, _P_KS + '\tks2, err := proto.DecodeKeySpec(plugin.KeySpecRSA2048)\n\tif err != nil {\n\t\treturn nil, nil, err\n\t}\n')])),
+ dict(name='cut-caller-passes-literal-keyspec', expect='flagged(payload/blob-digest-algorithm/lookup)', edits=_CUT(
+      g=_CALLER('genDesc', arg='signature.KeySpec{Type: signature.KeyTypeRSA, Size: 2048}'), more=[(S, _G_KS, _G_KS + '\t_ = ks\n')])),
+ dict(name='cut-helper-miss-passes', expect='flagged(payload/blob-digest-algorithm/lookup)', edits=_CUT(
+      helper=_KS_HELPER.replace('\tif !ok {\n\t\treturn "", fmt.Errorf("unknown hashing algo %v", hash)\n\t}\n', '\t_ = ok\n'))),
+ dict(name='cut-helper-fixed-hash', expect='flagged(payload/blob-digest-algorithm/lookup)', edits=_CUT(
+      helper=_KS_HELPER.replace('hash := ks.SignatureAlgorithm().Hash()', 'hash := crypto.SHA256'))),
+ dict(name='cut-caller-falls-back-on-helper-error', expect='flagged(payload/blob-digest-algorithm/lookup)', edits=_CUT(
+      p=_CALLER('descGenFunc', onerr='\tif err != nil {\n\t\tdigestAlg = digest.SHA256\n\t}\n'))),
+ dict(name='cut-sigalg-helper-constant-algorithm', expect='flagged(payload/blob-digest-algorithm/lookup)', edits=_CUT(helper=_SIGALG_HELPER,
+      g=_CALLER('genDesc', arg='ks.SignatureAlgorithm()'), p=_CALLER('descGenFunc', arg='signature.AlgorithmPS256'))),
+ dict(name='cut-signer-helper-ignores-keyspec-error', expect='flagged(payload/blob-digest-algorithm/lookup)', edits=_CUT(
+      helper=_SIGNER_HELPER.replace('\tks, err := sg.KeySpec()\n\tif err != nil {\n\t\treturn "", err\n\t}\n', '\tks, _ := sg.KeySpec()\n'),
+      more=[(S, _G_KS + _CALLER('genDesc'), _CALLER('genDesc', arg='s.signer', helper='signerDigestAlgorithm'))])),
+ dict(name='cut-signer-helper-asks-another-signer', expect='flagged(payload/blob-digest-algorithm/lookup)', edits=_CUT(
+      helper=_SIGNER_HELPER.replace('\treturn digestAlgorithmFor(ks)\n', '\tif ks.Size > 3072 {\n\t\tks = signature.KeySpec{Type: ks.Type, Size: 3072}\n\t}\n\treturn digestAlgorithmFor(ks)\n'),
+      more=[(S, _G_KS + _CALLER('genDesc'), _CALLER('genDesc', arg='s.signer', helper='signerDigestAlgorithm'))])),
+ dict(name='cut-caller-generator-error-ignored', expect='flagged(payload/blob-digest-algorithm)', edits=_CUT(
+      g=_CALLER('genDesc').replace('\tdesc, err := genDesc(digestAlg)\n', '\tdesc, _ := genDesc(digestAlg)\n'))),
+]
+
 VARIANTS = [
  dict(name='F11-reintroduced', file=N, expect='flagged(reader/)',
       find='''	var payload envelope.Payload
@@ -525,4 +591,4 @@ VARIANTS = [
  # ======== second pass: classes of rewrites rather than single shapes ========
  # (5) CLASS "value computed by a module helper / parameter narrowed or widened": the expiry is the result of a helper that is
  #     handed the signing time and the duration (or the options, or the request), or a helper stores it into the request
-] + _EXPIRY_VARIANTS + _RETURN_VARIANTS + _OBJECT_VARIANTS + _CTOR_VARIANTS + _TABLE_VARIANTS
+] + _EXPIRY_VARIANTS + _RETURN_VARIANTS + _OBJECT_VARIANTS + _CTOR_VARIANTS + _TABLE_VARIANTS + _CUT_VARIANTS
